@@ -162,6 +162,8 @@ void World::check_all(const char *when) {
                 if (cfg.judge_independence && !cfg.log_mismatch) violation("independence", std::string("a tree not involved in ") + when + " changed (slot " + std::to_string(i) + "): " + why);
                 if (!cfg.log_mismatch) discard(std::string("a tree not involved in ") + when + " deviates from the model: " + why);
             }
+            if (cfg.judge_followup && !cur_judged && !utils_touched[i] && !cfg.log_mismatch)
+                discard("a tree that did not go through a Utils call deviates from the model after " + std::string(when) + ": " + why);
             mismatch("structure", "slot " + std::to_string(i) + " after " + when + ": " + why);
         }
     }
@@ -241,7 +243,8 @@ void World::finish() {
     if (asim::live_blocks() != base_live) {
         std::string d = "after deleting every remaining root " + std::to_string(asim::live_blocks() - base_live) + " block(s) are still allocated:" + asim::describe_live();
         if (cfg.judge_memory) violation("leak", d);
-        if (cfg.fault_mode && !cfg.fault_mode_counting) violation("leak-after-failure", d);
+        // afail: only blocks the faulted call itself allocated are its leak (anything else leaked belongs to another call and property)
+        if (cfg.fault_mode && !cfg.fault_mode_counting && asim::live_blocks_of_step(armed_step) > 0) violation("leak-after-failure", d);
         discard("leak outside this property's oracles: " + d);
     }
     log.add("finish: ledger balanced");
